@@ -3,8 +3,9 @@
 patch=$1; prop=$2; tier=${3:-quick}
 cd /repo || exit 3
 if ! git diff --quiet; then echo "repo dirty"; exit 3; fi
-git apply "$patch" || { echo "patch does not apply"; exit 3; }
+git apply "$patch" 2>/dev/null || git apply --3way "$patch" 2>/dev/null || patch -p1 -s --fuzz=3 < "$patch" >/dev/null 2>&1 || { git checkout -- . ; git clean -fdq -- src; echo "patch does not apply"; exit 3; }
+git reset -q
 cd /verif
 ./check "$prop" --tier "$tier" 2>&1 | grep -E "VIOLATION|KNOWN|HARNESS|seed=" | head -8
 rc=$?
-git -C /repo checkout -- .
+git -C /repo checkout -- . ; git -C /repo clean -fdq -- src
